@@ -604,6 +604,12 @@ def s3_invalid():
     # repr / discriminants
     yield 'inv/repr_unknown', en('E', [variant('A'), variant('B')], [repr_attr('packed'), dw(['PartialOrd'])])
     yield 'inv/repr_unknown_after_C', en('E', [variant('A'), variant('B')], [repr_attr('C', 'transparent'), dw(['Clone'])])
+    # the same with items that are valid apart from the representation (so that accepting the repr flips the verdict)
+    dv = [variant('A', 'Unnamed', unnamed(1, [['T']])), variant('B')]
+    for rtag, ids in (('packed', ['packed']), ('transparent_after_C', ['C', 'transparent']), ('unknown_before_int', ['simd', 'u8']), ('unknown_after_int', ['u8', 'simd']),
+                      ('align_ident', ['align']), ('rust_then_unknown', ['Rust', 'foo'])):
+        yield 'inv/repr_unknown_valid/%s/PartialOrd' % rtag, en('E', dv, [repr_attr(*ids), dw(['PartialOrd', 'PartialEq'])])
+        yield 'inv/repr_unknown_valid/%s/Clone' % rtag, en('E', dv, [repr_attr(*ids), dw(['Clone'])])
     yield 'inv/repr_align', en('E', [variant('A'), variant('B', 'Unnamed', unnamed(1, [['T']]))], [('Repr', ('Unparsable', ['align', '(', '8', ')'])), dw(['Clone'])])
     yield 'inv/disc_without_repr', en('E', [variant('A', 'Unnamed', unnamed(1, [['T']]), disc=(['1'], 1)), variant('B')], [dw(['Clone'])])
     yield 'inv/disc_without_repr_C', en('E', [variant('A', 'Unnamed', unnamed(1, [['T']])), variant('B', disc=(['4'], 4))], [repr_attr('C'), dw(['PartialOrd'])])
@@ -623,7 +629,27 @@ def s3_invalid():
     yield 'sib/use_case/custom', S([dw(['Clone'], [('Pred', ['T', ':', 'Clone'])])])
     yield 'sib/use_case/dup_generic', S([dw(['Clone'], ['T', 'T'])])
     yield 'sib/use_case/other_type', S([dw(['Clone'], [('Ty', ['Vec', '<', 'T', '>'])])])
+    yield 'sib/use_case/all_params_plus_custom', S([dw(['Clone'], ['T', ('Pred', ['T', ':', 'Tr'])])])
+    yield 'sib/use_case/custom_then_all_params', S([dw(['Clone', 'Debug'], [('Pred', ['U', ':', 'Tr']), 'T', 'U'])], gen=generics([tparam('T'), tparam('U')]))
     yield 'sib/use_case/subset', S([dw(['Clone'], ['T'])], gen=generics([tparam('T'), tparam('U')]))
+    # the two zeroize escape hatches of the use-case rule: a `crate` option on the trait, `Zeroize(fqs)` on ANY field of ANY variant
+    zc = lambda t: ('L', P(t), [('NV', P('crate'), ('EPath', (False, ['zz'])))], None)
+    fqs_f = [sub(('L', P('Zeroize'), [mpath('fqs')], None))]
+    yield 'inv/use_case/zeroize_plain', S([dw(['Zeroize'], ['T'])])
+    yield 'sib/use_case/zeroize_crate', S([dw([zc('Zeroize')], ['T'])])
+    yield 'sib/use_case/zod_crate', S([dw([zc('ZeroizeOnDrop')], ['T'])])
+    yield 'sib/use_case/zeroize_fqs_struct_first', S([dw(['Zeroize'], ['T'])], named(2, [['T'], ['u8']], [fqs_f, []]))
+    yield 'sib/use_case/zeroize_fqs_struct_last', S([dw(['Zeroize'], ['T'])], named(2, [['T'], ['u8']], [[], fqs_f]))
+    yield 'sib/use_case/zeroize_fqs_tuple', S([dw(['Zeroize'], ['T'])], unnamed(2, [['T'], ['u8']], [[], fqs_f]), 'Unnamed')
+    yield 'sib/use_case/zeroize_fqs_enum_first', E([dw(['Zeroize'], ['T'])], [variant('A', 'Unnamed', unnamed(1, [['T']], [fqs_f])), variant('B', 'Named', named(1, [['u8']]))])
+    yield 'sib/use_case/zeroize_fqs_enum_last', E([dw(['Zeroize'], ['T'])], [variant('A', 'Unnamed', unnamed(1, [['T']])), variant('B'), variant('C', 'Named', named(2, [['u8'], ['T']], [[], fqs_f]))])
+    yield 'inv/use_case/zod_fqs_only', S([dw(['Zeroize', 'ZeroizeOnDrop'], ['T'])], named(2, [['T'], ['u8']], [fqs_f, []]))
+    yield 'inv/use_case/clone_with_fqs', S([dw(['Zeroize', 'Clone'], ['T'])], named(2, [['T'], ['u8']], [fqs_f, []]))
+    yield 'sib/use_case/lifetime_const_ignored', st('S', named(2, [['T'], ['u8']]), [dw(['Clone'], ['T', 'T'])], gen=generics([('Lt', 'a', []), tparam('T'), ('Const', 'N', ['usize'], [])]))
+    yield 'inv/use_case/lifetime_const_ignored', st('S', named(2, [['T'], ['u8']]), [dw(['Clone'], ['T'])], gen=generics([('Lt', 'a', []), tparam('T'), ('Const', 'N', ['usize'], [])]))
+    yield 'inv/use_case/enum_skip_other_variant_trait', E([dw(['Debug', 'Clone'], ['T'])], [variant('A', 'Unnamed', unnamed(1, [['T']], [[sub(skip_meta('skip', ['Debug']))]])), variant('B')])
+    yield 'sib/use_case/enum_skip_last_variant', E([dw(['Debug'], ['T'])], [variant('A', 'Unnamed', unnamed(1, [['T']])), variant('B', 'Named', named(1, [['u8']], [[sub('skip')]]))])
+    yield 'sib/use_case/skip_inner_variant', E([dw(['Hash'], ['T'])], [variant('A', 'Unnamed', unnamed(1, [['T']])), variant('B', 'Named', named(1, [['u8']]), [sub(skip_meta('skip_inner', ['Hash']))])])
     yield 'sib/nonadjacent_dup', S([dw(['Clone'], ['T']), dw(['Debug'], ['U']), dw(['Clone'], ['T'])], gen=generics([tparam('T'), tparam('U')]))
     yield 'sib/empty/enum_default', E([dw(['Default'])], [variant('A', 'Unit', [], [sub('default')]), variant('B')])
     yield 'sib/empty/enum_inc', E([dw(['PartialEq'])], [variant('A', 'Unit', [], [inc]), variant('B')])
